@@ -9,18 +9,51 @@
 // implemented here.  `condition_variable_wait` leaves `channel_write_map` by
 // longjmp and the operation is reported as "block" (state is unchanged: the
 // wait loop only reads).
+//
+// Big rings (capacity above 16 MiB, up to several GiB): the ring is address space only (PROT_NONE, never touched) and
+// the oracles work on intervals instead of bytes: a list of committed segments (stream index, length, buffer offset)
+// replaces the byte-wise shadow.  channel.c is compiled with -Dmemset=h_memset so that channel_new's memset of the
+// ring is skipped for such a mapping (and is the real memset everywhere else).  What this mode is for: every size_t
+// in channel.c that is narrowed to 32 bits somewhere (offsets, lengths, comparison results) behaves differently from
+// the model's natural numbers only beyond 2^31 / 2^32.
 #include "runtime/channel.h"
 #include <setjmp.h>
 #include <stdio.h>
 #include <stdlib.h>
 #include <string.h>
+#include <sys/mman.h>
+
+#define BIG_THRESHOLD ((size_t)1 << 24)
+static void* g_big_ptr;
+static size_t g_big_len;
+static int big; // the current channel is a big ring
+
+void* h_memset(void* p, int c, size_t n)
+{
+    if (p && p == g_big_ptr) return p;
+    return __builtin_memset(p, c, n);
+}
 
 static jmp_buf g_block;
 static int g_lock_depth;
 static unsigned long g_unlocked_access_checks;
 
-void* memory_alloc(size_t n, enum AllocatorHint hint) { (void)hint; return malloc(n ? n : 1); }
-void memory_free(void* p) { free(p); }
+void* memory_alloc(size_t n, enum AllocatorHint hint)
+{
+    (void)hint;
+    if (n > BIG_THRESHOLD) {
+        void* p = mmap(0, n, PROT_NONE, MAP_PRIVATE | MAP_ANONYMOUS | MAP_NORESERVE, -1, 0);
+        if (p == MAP_FAILED) { printf("mmap-failed\n"); exit(4); }
+        g_big_ptr = p; g_big_len = n;
+        return p;
+    }
+    return malloc(n ? n : 1);
+}
+void memory_free(void* p)
+{
+    if (p && p == g_big_ptr) { munmap(p, g_big_len); g_big_ptr = 0; g_big_len = 0; return; }
+    free(p);
+}
 void lock_init(struct lock* self) { (void)self; }
 void lock_acquire(struct lock* self) { (void)self; ++g_lock_depth; }
 void lock_release(struct lock* self) { (void)self; --g_lock_depth; }
@@ -57,6 +90,36 @@ static struct
     int mapped;
     size_t mbeg, mlen;     // mapped region (offset, length)
 } orc[MAXR];
+// big rings: committed segments instead of bytes
+#define MAXSEG 4096
+static struct { size_t sidx, len, off; } seg[MAXSEG];
+static size_t nseg;
+// does stream range [idx, idx+len) lie at buffer offsets [beg, beg+len), in order?
+static int seg_contiguous_at(size_t idx, size_t len, size_t beg)
+{
+    size_t done = 0;
+    for (size_t s = 0; s < nseg && done < len; ++s) {
+        if (seg[s].sidx + seg[s].len <= idx + done) continue;
+        if (seg[s].sidx > idx + done) return 0;
+        size_t skip = idx + done - seg[s].sidx;
+        if (seg[s].off + skip != beg + done) return 0;
+        size_t take = seg[s].len - skip;
+        if (take > len - done) take = len - done;
+        done += take;
+    }
+    return done == len;
+}
+// first stream index >= idx whose buffer location falls into [beg, beg+n); (size_t)-1 if none
+static size_t seg_first_in(size_t idx, size_t beg, size_t n)
+{
+    for (size_t s = 0; s < nseg; ++s) {
+        if (seg[s].sidx + seg[s].len <= idx) continue;
+        size_t skip = seg[s].sidx < idx ? idx - seg[s].sidx : 0;
+        size_t lo = seg[s].off + skip, hi = seg[s].off + seg[s].len; // locations of the unconsumed part
+        if (lo < beg + n && beg < hi) return seg[s].sidx + skip + (lo < beg ? beg - lo : 0);
+    }
+    return (size_t)-1;
+}
 static unsigned long n_oracle_fail;
 static int frame_mode; // C05: writes are whole frames (multiples of 8), readers consume up to frame boundaries
 
@@ -89,6 +152,7 @@ static void oracle_flush(void)
 
 static void check_mapped_regions_stable(void)
 {
+    if (big) return; // intervals only: an overlapping write is reported when it is handed out
     for (int r = 0; r < nrd; ++r) {
         if (!orc[r].mapped || !orc[r].resolved) continue;
         for (size_t j = 0; j < orc[r].mlen; ++j)
@@ -116,6 +180,8 @@ static void digest(void)
 static void do_new(size_t cap)
 {
     if (have_channel) { channel_release(&ch); }
+    big = cap > BIG_THRESHOLD;
+    nseg = 0;
     channel_new(&ch, cap);
     have_channel = 1;
     memset(rd, 0, sizeof(rd));
@@ -147,14 +213,17 @@ static void do_wmap(size_t n)
         if (orc[r].mapped && beg < orc[r].mbeg + orc[r].mlen && orc[r].mbeg < beg + n)
             oracle_fail("write-region-overlaps-mapped-reader", r, (long)beg, (long)n);
         // C02: not overlapping bytes the reader has yet to consume
-        if (orc[r].resolved)
+        if (orc[r].resolved && big) {
+            size_t j = seg_first_in(orc[r].idx, beg, n);
+            if (j != (size_t)-1) oracle_fail("write-region-overlaps-unconsumed", r, (long)beg, (long)j);
+        } else if (orc[r].resolved)
             for (size_t j = orc[r].idx; j < total; ++j)
                 if (loc[j] >= beg && loc[j] < beg + n) {
                     oracle_fail("write-region-overlaps-unconsumed", r, (long)beg, (long)j);
                     break;
                 }
     }
-    if (beg + n <= ch.capacity)
+    if (!big && beg + n <= ch.capacity)
         for (size_t j = 0; j < n; ++j) p[j] = payload(total + j);
     pend_beg = beg; pend_len = n; pending = 1;
     printf("wok %zu", beg); digest();
@@ -170,8 +239,11 @@ static void do_wcommit(void)
     channel_write_unmap(&ch);
     if (ch.head != head0) {
         // committed: the region [pend_beg, pend_beg+pend_len) is now stream data
-        if (total + pend_len >= MAXSTREAM) { printf("stream-limit\n"); exit(3); }
-        for (size_t j = 0; j < pend_len; ++j) {
+        if (big) {
+            if (nseg >= MAXSEG) { printf("stream-limit\n"); exit(3); }
+            if (pend_len) { seg[nseg].sidx = total; seg[nseg].len = pend_len; seg[nseg].off = pend_beg; ++nseg; }
+        } else if (total + pend_len >= MAXSTREAM) { printf("stream-limit\n"); exit(3); }
+        for (size_t j = 0; !big && j < pend_len; ++j) {
             stream[total + j] = payload(total + j);
             loc[total + j] = pend_beg + j;
         }
@@ -205,7 +277,7 @@ static void after_read_map(int r, struct slice sl, int was_mapped)
             for (size_t b = orc[r].nbounds_at_join; b-- > 0;) {
                 size_t j0 = bounds[b];
                 if (j0 + len > total) continue;
-                if (beg + len <= ch.capacity && memcmp(ch.data + beg, stream + j0, len) == 0) {
+                if (beg + len <= ch.capacity && (big ? seg_contiguous_at(j0, len, beg) : memcmp(ch.data + beg, stream + j0, len) == 0)) {
                     orc[r].idx = j0; orc[r].resolved = 1; found = 1; break;
                 }
             }
@@ -213,7 +285,7 @@ static void after_read_map(int r, struct slice sl, int was_mapped)
         }
         if (orc[r].resolved) {
             if (orc[r].idx + len > total) oracle_fail("read-region-beyond-committed", r, (long)orc[r].idx, (long)len);
-            else if (beg + len <= ch.capacity && memcmp(ch.data + beg, stream + orc[r].idx, len) != 0)
+            else if (beg + len <= ch.capacity && (big ? !seg_contiguous_at(orc[r].idx, len, beg) : memcmp(ch.data + beg, stream + orc[r].idx, len) != 0))
                 oracle_fail("read-bytes-not-next-in-stream", r, (long)beg, (long)orc[r].idx);
             if (frame_mode && !(is_boundary(orc[r].idx) && is_boundary(orc[r].idx + len)))
                 oracle_fail("frame-region-not-whole-frames", r, (long)orc[r].idx, (long)len);
